@@ -153,7 +153,7 @@ fn check_path_ascii<const N: usize>() {
 }
 macro_rules! path_ascii {
     ($($name:ident = $n:expr, $u:expr;)*) => {$(
-        crate::verif_harness! {
+        crate::verif_harness_memchr! {
             #[kani::unwind($u)]
             fn $name() { check_path_ascii::<$n>() }
         }
@@ -184,7 +184,7 @@ fn check_path_shape<const K: usize, const N: usize>() {
 }
 macro_rules! path_shape {
     ($($name:ident = $k:expr, $n:expr, $u:expr;)*) => {$(
-        crate::verif_harness! {
+        crate::verif_harness_memchr! {
             #[kani::unwind($u)]
             fn $name() { check_path_shape::<$k, $n>() }
         }
@@ -198,7 +198,7 @@ path_shape! {
 // The canonical text of the default account path m/44'/60'/0'/0/i parses to exactly
 // [44', 60', 0', 0, i] for every i below 2^31 and is refused from 2^31 on. The index digits are
 // symbolic (1..=10 digits, no redundant leading zero); the text is assembled by the harness.
-crate::verif_harness! {
+crate::verif_harness_memchr! {
     #[kani::unwind(28)]
     fn c14_default_path_text() {
         let digits: [u8; 10] = kani::any();
